@@ -40,7 +40,8 @@ MODEL_NAMES = [("FMapAbs", "map"), ("FSelectOdd", "select"), ("FRejectOdd", "rej
 TPL = {"map_abs": "map('abs')", "select_odd": "select('odd')", "reject_odd": "reject('odd')", "list": "list", "first": "first",
        "sum": "sum", "join": "join(',')", "unique": "unique", "slice1": "slice(1)", "sort": "sort", "max": "max", "min": "min",
        "reverse": "reverse", "batch1": "batch(1)", "length": "length"}
-HAS_VARIANT = {"map_abs", "select_odd", "reject_odd", "list", "first", "sum", "join", "unique", "slice1"}
+HAS_VARIANT = {"map_abs", "select_odd", "reject_odd", "list", "first", "sum", "join", "unique", "slice1", "sort", "max", "min",
+               "reverse", "batch1"}
 LAZY = {"map_abs", "select_odd", "reject_odd"}
 MIDDLE = ["map_abs", "select_odd", "reject_odd", "list", "unique", "sort", "reverse"]
 FINAL = ["first", "sum", "join", "max", "min", "length", "batch1", "slice1"]
